@@ -55,7 +55,7 @@ def enum_uf11(ctx):
                 idx += 1
                 if ctx.mine(idx):
                     rng = ctx.rng("uf11", idx)
-                    yield {"pr": pr, "ic": icf, "cl": cl, "ctx_spare": rng.getrandbits(16), "ctx_addr": rng.getrandbits(24), "hc": rng.choice("ULM")}
+                    yield {"pr": pr, "ic": icf, "cl": cl, "ctx_spare": rng.getrandbits(16), "ctx_addr": gen.addr24(rng), "hc": rng.choice("ULM")}
 
 
 def nov(x):
@@ -98,7 +98,7 @@ def enum_rc(ctx):
                     idx += 1
                     if ctx.mine(idx):
                         rng = ctx.rng("rcc", idx)
-                        yield {"uf": uf, "rr": rr, "di": di, "sd": sd, "ctx_pc": rng.getrandbits(3), "ctx_ma": rng.getrandbits(56), "ctx_addr": rng.getrandbits(24), "hc": rng.choice("ULM")}
+                        yield {"uf": uf, "rr": rr, "di": di, "sd": sd, "ctx_pc": rng.getrandbits(3), "ctx_ma": rng.getrandbits(56), "ctx_addr": gen.addr24(rng), "hc": rng.choice("ULM")}
     if ctx.tier == "thorough":
         for di in range(8):
             for rr in (0, 17, 31):
@@ -106,7 +106,7 @@ def enum_rc(ctx):
                     idx += 1
                     if ctx.mine(idx):
                         rng = ctx.rng("rcx", idx)
-                        yield {"uf": rng.choice(RC), "rr": rr, "di": di, "sd": sd, "ctx_pc": rng.getrandbits(3), "ctx_ma": rng.getrandbits(56), "ctx_addr": rng.getrandbits(24), "hc": "U"}
+                        yield {"uf": rng.choice(RC), "rr": rr, "di": di, "sd": sd, "ctx_pc": rng.getrandbits(3), "ctx_ma": rng.getrandbits(56), "ctx_addr": gen.addr24(rng), "hc": "U"}
 
 
 def chk_rc(c, note):
@@ -176,7 +176,7 @@ def enum_alluf(ctx):
             if ctx.mine(idx):
                 rng = ctx.rng("uf", uf, j)
                 n = 112 if uf >= 16 else 56
-                yield {"uf": uf, "ctx_body": rng.getrandbits(n - 29), "ctx_addr": rng.getrandbits(24), "hc": rng.choice("ULM")}
+                yield {"uf": uf, "ctx_body": rng.getrandbits(n - 29), "ctx_addr": gen.addr24(rng), "hc": rng.choice("ULM")}
 
 
 def chk_alluf(c, note):
@@ -244,11 +244,11 @@ def first_jobs(rng):
     jobs = []
     for _ in range(30):
         n = rng.choice([56, 112])
-        addr = rng.getrandbits(24)
+        addr = gen.addr24(rng)
         msg = frames.tohex(crc24.uplink_frame(rng.getrandbits(n - 24), n - 24, addr), n, rng.choice("UL"))
         jobs.append(("decoder.uplink.uplink_icao", (msg,), (lambda got, a=addr: None if got[0] == "ok" and isinstance(got[1], str) and got[1].upper() == "%06X" % a else "interrogated address %06X" % a)))
         pr, icf, cl = rng.getrandbits(4), rng.getrandbits(4), rng.randrange(5)
-        m11 = upl(11, (pr << 23) | (icf << 19) | (cl << 16) | rng.getrandbits(16), 56, rng.getrandbits(24))
+        m11 = upl(11, (pr << 23) | (icf << 19) | (cl << 16) | rng.getrandbits(16), 56, gen.addr24(rng))
         jobs.append(("decoder.uplink.pr", (m11,), ("ok", pr)))
         jobs.append(("decoder.uplink.uf", (m11,), ("ok", 11)))
     return jobs
